@@ -11,6 +11,14 @@ cd "$WT" || exit 2
 git diff -- nucs > "$OUT/patch.diff"
 [ -s "$OUT/patch.diff" ] || { echo "no diff in $WT"; exit 2; }
 cp demo.py "$OUT/demo.py" 2>/dev/null
+# the worktree was created when the round started; /repo may have received `fix:` commits since: move the change onto
+# /repo's HEAD so that the checks judge the change and not a defect repaired in the meantime
+HEAD_REPO=$(git -C /repo rev-parse HEAD)
+if [ "$(git rev-parse HEAD)" != "$HEAD_REPO" ]; then
+  git checkout -q -- nucs && git checkout -q --detach "$HEAD_REPO" && git apply "$OUT/patch.diff" || { echo "change does not apply on /repo HEAD"; exit 2; }
+  git diff -- nucs > "$OUT/patch.diff"
+  echo "== moved onto $HEAD_REPO"
+fi
 DEMO_ENV="NUMBA_DISABLE_JIT=1"
 if grep -q '"demo_cmd"' meta.json 2>/dev/null && ! grep -q 'NUMBA_DISABLE_JIT=1' meta.json; then DEMO_ENV=""; fi
 echo "== tests with the change"
